@@ -145,7 +145,7 @@ def encoder_model(ctx):
         stubs = {}
         for hn, hf in helpers.items():
             stubs[hn] = (lambda f_: (lambda it, *a, **k: it.call_function(f_, list(a), dict(k), Env())))(hf)
-        it = Interp({}, stubs, methods={'Constant': ci.methods})
+        it = Interp.for_file(ctx.src, ci.file, {}, stubs, also=tuple(f for f in ('mindsdb_sql/parser/ast/base.py',) if f != ci.file))
         try:
             out = it.call_function(fn, [Obj('Constant', value=v, with_quotes=True, alias=None, parentheses=False)], {}, Env())
         except Raised as r:
